@@ -1024,13 +1024,30 @@ def handle_ifs(args, op_range=None):
 
 
 def build_wildcard_re(lookup_value):
-    regex = QUESTION_MARK_RE.sub('.', STAR_RE.sub('.*', lookup_value))
-    if regex != lookup_value:
-        # this will be a regex match"""
-        compiled = re.compile(f'^{regex.lower()}$')
-        return lambda x: x is not None and compiled.match(x.lower()) is not None
-    else:
+    """Translate an Excel wildcard pattern into a case insensitive matcher
+
+    `?` matches any single character, `*` any sequence of characters and
+    `~` makes the character that follows it literal.  Every other character
+    matches itself.  Returns None if there is no wildcard syntax in the value
+    """
+    if not any(c in lookup_value for c in '?*~'):
         return None
+
+    regex = []
+    chars = iter(lookup_value.lower())
+    for c in chars:
+        if c == '~':
+            regex.append(re.escape(next(chars, c)))
+        elif c == '?':
+            regex.append('.')
+        elif c == '*':
+            regex.append('.*')
+        else:
+            regex.append(re.escape(c))
+
+    compiled = re.compile(''.join(regex), re.DOTALL)
+    return lambda x: (
+        x is not None and compiled.fullmatch(x.lower()) is not None)
 
 
 def criteria_parser(criteria):
